@@ -302,6 +302,8 @@ def shrink(n, job):
     """greedy minimisation of a failing case, in this process: drop operations / faults / options while
     the same kind of specification violation (c19.spec_violations, evaluated on the real outcome) remains"""
     import c19
+    if job.get('fastq'):
+        return shrink_fastq(n, job)
     key, cur = job['key'], job['case']
     counter = [0]
 
@@ -355,9 +357,173 @@ def shrink(n, job):
     return {'case': cur, 'res': run(cur), 'shrunk': True}
 
 
+# ----------------------------------------------------------------------------- bamSplitByTag
+class SerialPool:
+    """stands in for multiprocessing.Pool(10) in bamSplitByTag (indexing of the outputs is not part of C19)"""
+
+    def __init__(self, *a, **kw):
+        pass
+
+    def __enter__(self):
+        return self
+
+    def __exit__(self, *a):
+        return False
+
+    def imap_unordered(self, f, it):
+        return [f(x) for x in it]
+
+
+def main_loop_statements(path):
+    """the statements of the `if __name__ == '__main__':` block of bamSplitByTag.py from `skip = set()` up to and
+    including the `while len(waiting) > 0:` loop; fails closed when the block does not have that shape"""
+    import ast
+    tree = ast.parse(REAL_OPEN(path).read())
+    mains = [n for n in tree.body if isinstance(n, ast.If) and isinstance(n.test, ast.Compare)
+             and isinstance(n.test.left, ast.Name) and n.test.left.id == '__name__']
+    if len(mains) != 1:
+        raise RuntimeError('bamSplitByTag: __main__ block not found')
+    body = mains[0].body
+    start = [i for i, st in enumerate(body) if isinstance(st, ast.Assign) and len(st.targets) == 1
+             and isinstance(st.targets[0], ast.Name) and st.targets[0].id == 'skip']
+    loops = [i for i, st in enumerate(body) if isinstance(st, ast.While)]
+    if len(start) != 1 or len(loops) != 1 or loops[0] < start[0]:
+        raise RuntimeError('bamSplitByTag: main loop has an unexpected shape')
+    stmts = body[start[0]:loops[0] + 1]
+    calls = [n for st in stmts for n in ast.walk(st) if isinstance(n, ast.Call) and isinstance(n.func, ast.Name)
+             and n.func.id == 'split_bam_by_tag']
+    if len(calls) != 1:
+        raise RuntimeError('bamSplitByTag: main loop does not call split_bam_by_tag exactly once')
+    mod = ast.Module(body=stmts, type_ignores=[])
+    return compile(ast.fix_missing_locations(mod), path, 'exec')
+
+
+def run_bamsplit(n, case):
+    import pysam, types
+    from singlecellmultiomics.bamProcessing import bamSplitByTag as B
+    from singlecellmultiomics.utils.path import get_valid_filename
+    d = os.path.join(SCRATCH, 'b%d' % n)
+    os.makedirs(os.path.join(d, 'out'))
+    src = os.path.join(d, 'in.bam')
+    header = {'HD': {'VN': '1.6', 'SO': 'coordinate'}, 'SQ': [{'SN': 'chr1', 'LN': 100000}]}
+    with pysam.AlignmentFile(src, 'wb', header=header) as out:
+        for i, val in enumerate(case['reads']):
+            a = pysam.AlignedSegment(out.header)
+            a.query_name = 'r%d' % i
+            a.query_sequence = 'ACGT'
+            a.flag = 0
+            a.reference_id = 0
+            a.reference_start = 10 + i
+            a.mapping_quality = 60
+            a.cigar = [(0, 4)]
+            a.query_qualities = pysam.qualitystring_to_array('IIII')
+            if val is not None:
+                a.set_tag('SM', val)
+            out.write(a)
+    state = {'open': 0, 'max_open': 0, 'passes': 0}
+
+    class Writer:
+        def __init__(self, f):
+            self._f = f
+            state['open'] += 1
+            state['max_open'] = max(state['max_open'], state['open'])
+
+        def close(self):
+            state['open'] -= 1
+            return self._f.close()
+
+        def __getattr__(self, name):
+            return getattr(self._f, name)
+
+    class PysamShim:
+        def __getattr__(self, name):
+            return getattr(pysam, name)
+
+        @staticmethod
+        def AlignmentFile(path, mode='r', *a, **kw):
+            f = pysam.AlignmentFile(path, mode, *a, **kw)
+            return Writer(f) if 'w' in mode else f
+
+    real_split = B.split_bam_by_tag
+
+    def counted_split(*a, **kw):
+        state['passes'] += 1
+        if state['passes'] > len(case['reads']) + 3:
+            raise Livelock('more passes than reads')
+        return real_split(*a, **kw)
+    code = main_loop_statements(B.__file__)
+    saved = (B.pysam, B.Pool, sys.stdout)
+    res = {'san': [None if v is None else get_valid_filename(v) for v in case['reads']]}
+    try:
+        B.pysam, B.Pool = PysamShim(), SerialPool
+        sys.stdout = REAL_OPEN(os.devnull, 'w')
+        ns = dict(B.__dict__)
+        ns.update({'split_bam_by_tag': counted_split, 'output_prefix': os.path.join(d, 'out') + os.sep,
+                   'args': types.SimpleNamespace(bamfile=src, tag='SM', head=None, max_handles=case['max_handles'])})
+        status = 0
+        try:
+            exec(code, ns)
+        except Livelock:
+            status = 'livelock'
+        except Exception as e:
+            status = 'raised %s: %s' % (type(e).__name__, e)
+        finally:
+            sys.stdout.close()
+            B.pysam, B.Pool, sys.stdout = saved
+        res.update({'status': status, 'passes': state['passes'], 'max_open': state['max_open'],
+                    'still_open': state['open'],
+                    'done': sorted(str(x) for x in ns.get('skip', [])) if status == 0 else None})
+        files = {}
+        for fn in sorted(os.listdir(os.path.join(d, 'out'))):
+            if fn.endswith('.bam'):
+                try:
+                    with pysam.AlignmentFile(os.path.join(d, 'out', fn), 'rb') as f:
+                        files[fn[:-4]] = [int(r.query_name[1:]) for r in f]
+                except Exception as e:
+                    files[fn[:-4]] = 'UNREADABLE %s' % type(e).__name__
+        res['files'] = files
+    finally:
+        shutil.rmtree(d, ignore_errors=True)
+    return res
+
+
+def shrink_fastq(n, job):
+    """minimise the record pairs of a failing FastqHandle case"""
+    import c19, time
+    key, cur = job['key'], job['fastq']
+    counter = [0]
+
+    def run(fc):
+        counter[0] += 1
+        return run_fastq(2000000 + n * 100000 + counter[0], fc)
+
+    def bad(fc):
+        r = run(fc)
+        return any(k == key for k, _ in c19.spec_violations(c19.fastq_as_case(fc, r), r))
+    if len(cur['pairs']) > 400 or not bad(cur):
+        return {'fastq': cur, 'res': run(cur), 'shrunk': False}
+    t_end = time.time() + 40
+    size = max(1, len(cur['pairs']) // 2)
+    while size >= 1 and time.time() < t_end:
+        i = 0
+        while i < len(cur['pairs']) and time.time() < t_end:
+            c = dict(cur); c['pairs'] = cur['pairs'][:i] + cur['pairs'][i + size:]
+            if c['pairs'] and bad(c):
+                cur = c
+            else:
+                i += size
+        size //= 2
+    for kind in ('soft',):
+        sc = dict(cur['script']); sc[kind] = []
+        c = dict(cur); c['script'] = sc
+        if bad(c):
+            cur = c
+    return {'fastq': cur, 'res': run(cur), 'shrunk': True}
+
+
 def handler(p):
-    out = {'cases': [], 'fastq': [], 'rlimit': [], 'shrink': []}
-    for key, fn in (('cases', run_case), ('fastq', run_fastq), ('rlimit', run_rlimit), ('shrink', shrink)):
+    out = {'cases': [], 'fastq': [], 'rlimit': [], 'shrink': [], 'bamsplit': []}
+    for key, fn in (('cases', run_case), ('fastq', run_fastq), ('rlimit', run_rlimit), ('shrink', shrink), ('bamsplit', run_bamsplit)):
         for n, case in enumerate(p.get(key, [])):
             try:
                 out[key].append(fn(n, case))
